@@ -31,7 +31,7 @@ func MapFloat(lexicalForm string) (Float, error) {
 func (v Float) AsObjectValue() rdf.ObjectValue {
 	return rdf.Literal{
 		Datatype:    xsdiri.Float_Datatype,
-		LexicalForm: strconv.FormatFloat(float64(v), 'f', -1, 32),
+		LexicalForm: formatFloatLexicalForm(float64(v), 32),
 	}
 }
 
@@ -47,5 +47,5 @@ func (v Float) TermEquals(t rdf.Term) bool {
 		return false
 	}
 
-	return strconv.FormatFloat(float64(v), 'f', -1, 32) == tLiteral.LexicalForm
+	return formatFloatLexicalForm(float64(v), 32) == tLiteral.LexicalForm
 }
